@@ -16,12 +16,17 @@ GUARD = "STEPCODE_VERIF"
 VARIANTS = {
     "plain": dict(cc="gcc", cxx="g++", flags="-O1 -g -D%s" % GUARD, ld=""),
     "san": dict(cc="clang", cxx="clang++",
-                flags="-O1 -g -fno-omit-frame-pointer -fsanitize=address,undefined -fno-sanitize-recover=undefined -D%s" % GUARD,
+                flags="-O1 -g -fno-omit-frame-pointer -fsanitize=address,undefined -fno-sanitize=function -fno-sanitize-recover=undefined -D%s" % GUARD,
                 ld="-fsanitize=address,undefined"),
     "fuzz": dict(cc="clang", cxx="clang++",
-                 flags="-O1 -g -fno-omit-frame-pointer -fsanitize=fuzzer-no-link,address,undefined -fno-sanitize-recover=undefined -D%s" % GUARD,
+                 flags="-O1 -g -fno-omit-frame-pointer -fsanitize=fuzzer-no-link,address,undefined -fno-sanitize=function -fno-sanitize-recover=undefined -D%s" % GUARD,
                  ld="-fsanitize=address,undefined"),
 }
+
+
+# -fno-sanitize=function: UBSan's function-type check fires in Registry::ObjCreate for EVERY generated creator
+# (creators are stored as SDAI_Application_instance*(*)() but defined with a derived return type). One root cause that
+# would end every sanitizer campaign at its first instance; recorded as finding F39 and switched off here.
 
 
 class BuildError(Exception):
